@@ -38,6 +38,8 @@ func checkC08(c *Ctx) {
 	prog := c.Prog(load.AMD64)
 	c08Sign(c, prog)
 	c08Options(c, prog)
+	// "verifies under the signer's public key in every encoding": Verify's handling of options and encodings (rule C07-3)
+	c07Options(c, prog)
 	// "the byte encodings returned parse back to the same (r, s, v)": the signature parsers and builders (rules C12-1..4)
 	c12ASN1Signature(c, prog)
 	c12BytesToScalar(c, prog)
